@@ -40,6 +40,8 @@ type FuncCtx struct {
 	curPos     token.Pos
 	curInstr   ssa.Instruction
 	skipPre    bool
+	ghostRan   map[string]bool   // ghost blocks executed on at least one path
+	ghostSkipped map[string]string // ghost blocks skipped because a local they name does not exist (message)
 	rename     map[string]string // contract-local name -> current name of the renamed local (recovered, see recoverRename)
 	openChans  map[string]bool // channel terms read from fields declared openchan
 	fn         *ssa.Function
@@ -317,6 +319,13 @@ func (e *Engine) verifyFunc(pkgPath, key string) (fx *FuncCtx, err error) {
 	entry := st.clone()
 	entry.atlock = nil
 	fx.run(entry, fn.Blocks[0], nil)
+	// a ghost block whose anchor was reached but which never ran because it names a local that exists nowhere: the
+	// contract no longer fits (a renamed local, typically) - reported like any other unknown identifier
+	for _, k := range sortedKeys(fx.ghostSkipped) {
+		if !fx.ghostRan[k] {
+			return nil, &staleContractErr{key: key, msg: fx.ghostSkipped[k] + " (ghost block `" + strings.SplitN(k, "|", 2)[0] + "` never applies)"}
+		}
+	}
 	return fx, nil
 }
 
@@ -620,7 +629,10 @@ func (fx *FuncCtx) loopArrive(st *State, b *ssa.BasicBlock, phase string) {
 		}
 		var side []string
 		env.side = &side
-		t := env.boolTerm(inv.E)
+		t, ok := fx.optionalTerm(env, inv)
+		if !ok {
+			continue
+		}
 		fx.oblige(st, fmt.Sprintf("loop%d/%s", k, phase), label, t, firstPos(b), inv.Src)
 	}
 }
@@ -649,6 +661,12 @@ func (fx *FuncCtx) loopHavoc(st *State, b *ssa.BasicBlock) {
 		nv := fx.freshVal("l$"+c.Name(), old.T)
 		st.cells[c] = nv
 		fx.assumeTyping(st, nv)
+		// a counter that the loop only ever increments by non-negative constants does not fall below its value at loop
+		// entry (inferred invariant; wrap-around of such a counter would need 2^63 iterations and is not modelled)
+		if fx.mode == ModeInt && len(nv.C) == 1 && len(old.C) == 1 && isIntegerType(old.T) && fx.onlyIncremented(c, body) {
+			st.assume(sx(">=", nv.C[0], old.C[0]))
+			fx.trusted["inferred loop invariant: counters only incremented by constants do not wrap around"] = true
+		}
 	}
 	for _, k := range keys {
 		sortOf := fx.keySorts[k.Key]
@@ -724,12 +742,65 @@ func (fx *FuncCtx) loopHavoc(st *State, b *ssa.BasicBlock) {
 	for _, inv := range ls.Invs {
 		var side []string
 		env.side = &side
-		t := env.boolTerm(inv.E)
+		t, ok := fx.optionalTerm(env, inv)
+		if !ok {
+			continue
+		}
 		for _, s := range side {
 			st.assume(s)
 		}
 		st.assume(t)
 	}
+}
+
+// optionalTerm evaluates a loop invariant; an invariant declared `invariant?` is dropped (both as an obligation and as
+// a hypothesis) when it names a local the function does not have - it is auxiliary to one loop shape only.
+func (fx *FuncCtx) optionalTerm(env *SpecEnv, inv Clause) (t string, ok bool) {
+	if !inv.Optional {
+		return env.boolTerm(inv.E), true
+	}
+	defer func() {
+		if r := recover(); r != nil {
+			if se, isSpec := r.(specErr); isSpec && strings.Contains(se.msg, "unknown identifier") {
+				t, ok = "", false
+				return
+			}
+			panic(r)
+		}
+	}()
+	return env.boolTerm(inv.E), true
+}
+
+func isIntegerType(t types.Type) bool {
+	b, ok := t.Underlying().(*types.Basic)
+	return ok && b.Info()&types.IsInteger != 0 && b.Info()&types.IsUnsigned == 0
+}
+
+// onlyIncremented: every store to the cell inside the loop body writes (load of the cell) + non-negative constant.
+func (fx *FuncCtx) onlyIncremented(cell ssa.Value, body map[*ssa.BasicBlock]bool) bool {
+	n := 0
+	for b := range body {
+		for _, in := range b.Instrs {
+			st, ok := in.(*ssa.Store)
+			if !ok || st.Addr != cell {
+				continue
+			}
+			n++
+			bo, ok := st.Val.(*ssa.BinOp)
+			if !ok || bo.Op != token.ADD {
+				return false
+			}
+			ld, ok1 := bo.X.(*ssa.UnOp)
+			k, ok2 := bo.Y.(*ssa.Const)
+			if !ok1 || !ok2 || ld.Op != token.MUL || ld.X != cell || k.Value == nil {
+				return false
+			}
+			if v, exact := constant.Int64Val(constant.ToInt(k.Value)); !exact || v < 0 {
+				return false
+			}
+		}
+	}
+	return n > 0
 }
 
 // effectsOf: cells and heap keys possibly written by the blocks.
